@@ -126,7 +126,8 @@ class Rig:
             if i < len(FakeTimer.registry) and FakeTimer.registry[i].state == "armed":
                 t = FakeTimer.registry[i]
                 t.state = "fired"
-                if getattr(t.function, "__name__", "") == "update":
+                # the first timer only prints; every later timer's callback is the one that re-arms (whatever it is called)
+                if getattr(t.function, "__name__", "") != "_print_status":
                     self.pending.append(t.function)
 
     def obs(self):
